@@ -57,8 +57,8 @@ func main() {
 				os.Exit(2)
 			}
 			rt.SetMode(rt.Controlled)
-			st, v, infra := Explore(sc, *bound, *shard, *nshards, time.Duration(*budget)*time.Second, *nocache)
-			res := &WorkerResult{Scenario: sc.Name, Params: sc.Params, Stats: st, Violation: v, Infra: infra}
+			st, v, infra, kn := Explore(sc, *bound, *shard, *nshards, time.Duration(*budget)*time.Second, *nocache)
+			res := &WorkerResult{Scenario: sc.Name, Params: sc.Params, Stats: st, Violation: v, Infra: infra, Known: kn}
 			if v != nil {
 				// confirm: the same schedule must show the same violation every time
 				for i := 0; i < 5; i++ {
